@@ -201,16 +201,29 @@ var c08Patterns = []string{"||example.org^", "example", "|http://example.org/", 
 
 func c08Mutate(t *rapid.T, m NetModel) NetModel {
 	y := m
-	switch rapid.IntRange(0, 9).Draw(t, "mutation") {
+	switch rapid.IntRange(0, 10).Draw(t, "mutation") {
+	case 10:
+		// one more excluded content type: another rule, even when it matches the same requests ($script vs $script,~image)
+		ty := pick(t, "type-", typeNames)
+		if !inList(ty, m.TIncl) && !inList(ty, m.TExcl) {
+			y.TExcl = append(append([]string{}, m.TExcl...), ty)
+		} else {
+			if inList("important", m.Extra) {
+				y.MC = !m.MC
+			} else {
+				y.Extra = append(append([]string{}, m.Extra...), "important")
+			}
+		}
 	case 9:
 		// the same rule with another letter case in the pattern: another rule, although it matches the same requests
 		r := strings.NewReplacer("example", "Example", "google", "Google", "a.com", "A.com", "ads", "Ads")
 		if p := r.Replace(m.Pat); p != m.Pat {
 			y.Pat = p
 		} else {
-			y.Extra = append(append([]string{}, m.Extra...), "important")
 			if inList("important", m.Extra) {
 				y.MC = !m.MC
+			} else {
+				y.Extra = append(append([]string{}, m.Extra...), "important")
 			}
 		}
 	case 0:
